@@ -381,6 +381,8 @@ def gen_words(rng, name: str, n: int):
 
 def gen_shape(rng):
     r = rng.random()
+    if r < 0.03:          # arrays of a few KiB (code paths keyed on the size in bytes)
+        return rng.choice([[300], [20, 20], [1200], [2, 3, 100]])
     if r < 0.14:
         return []
     if r < 0.30:
